@@ -47,10 +47,10 @@ def AlgHyp (E : Ext R) (alg : Alg) (A : Op R) : Prop :=
   match effAlg alg (A.isa .psd) (A.rows * A.cols) with
   | .lu => LUContract E A.rows A.td.f
   | .chol => CholContract E A.rows A.td.f
-  | .cg => SolveContract E .cg A
-  | .gmres => SolveContract E .gmres A
+  | .cg o => SolveContract E (.cg o) A
+  | .gmres o => SolveContract E (.gmres o) A
   | .other => UnitaryHolds A ∧ A.RealTyped
-  | .auto => False
+  | .auto _ => False
 
 /-- the hypotheses collected along the rules `invAux` selects -/
 def HypAux (E : Ext R) (alg : Alg) (top : Op R) : Op R → Prop
@@ -155,20 +155,20 @@ theorem algRule_sound (E : Ext R) (alg : Alg) (A : Op R) (h : AlgHyp E alg A) (B
   unfold algRule at hB
   generalize hea : effAlg alg (A.isa .psd) (A.rows * A.cols) = ea at hB hc
   cases ea with
-  | auto => exact absurd hc id
-  | gmres =>
+  | auto d => exact absurd hc id
+  | gmres o =>
     simp only at hB hc
     cases hB
     refine ⟨hsq, by simp only [InvOp.rows], by simp only [InvOp.cols]; exact hsq, ?_,
-      mmOKI_iterInv E .gmres A hsq hc⟩
+      mmOKI_iterInv E (.gmres o) A hsq hc⟩
     rw [InvOp.den, hsq]
     exact hc A.rows eyeM
-  | cg =>
+  | cg o =>
     simp only at hB hc
     split at hB
     · cases hB
       refine ⟨hsq, by simp only [InvOp.rows], by simp only [InvOp.cols]; exact hsq, ?_,
-        mmOKI_iterInv E .cg A hsq hc⟩
+        mmOKI_iterInv E (.cg o) A hsq hc⟩
       rw [InvOp.den, hsq]
       exact hc A.rows eyeM
     · cases hB
